@@ -5,6 +5,9 @@
 use h_common::{tool_error, Args};
 
 mod befp;
+mod eds;
+mod ns;
+mod row;
 mod sample;
 mod sq;
 
@@ -16,6 +19,9 @@ fn main() {
     match (mode.as_str(), model.as_str()) {
         ("replay", "sqsample") => sample::replay(&args),
         ("replay", "sqbefp") => befp::replay(&args),
+        ("replay", "sqns") => ns::replay(&args),
+        ("replay", "sqrow") => row::replay(&args),
+        ("replay", "sqeds") => eds::replay(&args),
         _ => tool_error(&format!("unknown mode/model {mode}/{model}")),
     }
 }
